@@ -113,7 +113,9 @@ def make_case(idx):
             ast = R.choice([('rep', ('lit', 'x'), 0, -1), ('rep', ('lit', 'a'), 0, -1), ('bol',), ('eol',), ('rep', ('grp', ('lit', 'ab')), 0, 1), ('wbeg',), ('wend',),
                             ('cat', [('bol',), ('rep', ('lit', ' '), 0, -1)]), ('alt', ('grp', ('lit', 'a')), ('grp', ('lit', 'b'))),
                             ('cat', [('grp', ('any',)), ('grp', ('any',))]), ('cat', [('bol',), ('lit', 'a')]), ('cat', [('lit', '['), ('grp', ('rep', ('any',), 0, -1)), ('lit', ']')]), ('cat', [('lit', '['), ('grp', ('lit', 'a')), ('lit', 'b]'), ('grp', ('any',))]),
-                            ('cat', [('grp', ('lit', 'a')), ('lit', '/'), ('grp', ('any',))]), ('rep', ('brk', False, [('range', 'a', 'c')]), 1, -1)])
+                            ('cat', [('grp', ('lit', 'a')), ('lit', '/'), ('grp', ('any',))]), ('rep', ('brk', False, [('range', 'a', 'c')]), 1, -1),
+                            ('alt', ('cat', [('bol',), ('lit', 'a')]), ('lit', 'b')), ('alt', ('cat', [('bol',), ('grp', ('lit', 'x'))]), ('grp', ('lit', 'a'))), ('alt', ('bol',), ('lit', 'a')),
+                            ('alt', ('lit', 'b'), ('cat', [('bol',), ('lit', 'a')])), ('alt', ('cat', [('bol',), ('rep', ('lit', 'a'), 0, -1)]), ('lit', 'o'))])      # (anchored first branch, free second one)
         else:
             ast = None          # empty pattern: reuse the previous one
             if prev_ast is None:
@@ -132,25 +134,35 @@ def make_case(idx):
             aw = R.choice(['a', 'o', 'foo', 'b', 'x', 'é'])
             addr = '/%s/' % aw
             delim = R.choice([',', '#', ':'])
-        cmds.append({'ast': ast, 'rep': rep, 'g': g, 'addr': addr, 'a': a, 'b': b, 'delim': delim, 'base': base, 'aw': aw})
+        cmds.append({'ast': ast, 'rep': rep, 'g': g, 'addr': addr, 'a': a, 'b': b, 'delim': delim, 'base': base, 'aw': aw, 'short': (not g) and R.random() < 0.2})
         if ast is not None:
             prev_ast = ast
-    return {'lines': lines, 'noic': noic, 'cmds': cmds, 'idx': idx}
+    return {'lines': lines, 'noic': noic, 'cmds': cmds, 'idx': idx, 'via': R.choice(['stdin'] * 5 + ['so', 'reg'])}
 
 
 def script_of(case):
     s = b''
     if case['noic']:
         s += b'se noic\n'
+    body = b''
     for c in case['cmds']:
         d = c['delim']
         pat = '' if c['ast'] is None else mr.render(c['ast'])
         if d in pat.replace('\\' + d, '') and d != '/':
             d = c['delim'] = '/'
-        line = '%ss%s%s%s%s%s%s\n' % (c['addr'], d, typed(pat, d), d, typed(c['rep'], d), d, 'g' if c['g'] else '')
+        line = '%ss%s%s%s%s%s%s\n' % (c['addr'], d, typed(pat, d), d, typed(c['rep'], d), '' if c.get('short') else d, 'g' if c['g'] else '')      # (short form: the closing delimiter may be left out)
         if c.get('base'):
             line = '%d\n' % c['base'] + line
-        s += line.encode('utf-8')
+        body += line.encode('utf-8')
+    # the same commands typed, read from a sourced file, or executed from a register: a command ends at the end of its line everywhere
+    via = case.get('via', 'stdin')
+    if via == 'so' and len(body) < 480:
+        case['extra_files'] = {'cmds': body}
+        s += b'so cmds\n'
+    elif via == 'reg' and len(body) < 480 and b'\n.\n' not in b'\n' + body:
+        s += b'rs r\n' + body + b'.\n@r\n'
+    else:
+        s += body
     s += b'w! out\n'
     return s
 
@@ -178,7 +190,7 @@ def run_case(args):
     script = script_of(case)
     if len(max(script.split(b'\n'), key=len)) > 400:
         return ('skip', None, None, case)
-    r, d = common.run_ex(vi, script, files={'f1': gen.buf_bytes(case['lines'])}, timeout=60)
+    r, d = common.run_ex(vi, script, files=dict({'f1': gen.buf_bytes(case['lines'])}, **case.get('extra_files', {})), timeout=60)
     got = common.readf(d, 'out')
     common.rmcase(d)
     wit = {'index': idx, 'lines': case['lines'], 'script': script}
